@@ -75,8 +75,8 @@ Proof. intros X. exact start_stop_error. Qed.
 Theorem c11_netwfb_sound : forall (K : cring) r (tn : list (list (option (tensor K)))), netwfb K r tn = true -> netwf K r tn.
 Proof. exact netwfb_sound. Qed.
 
-(* transposition: the full statement is NOT proved (it needs the row/column Fubini exchange over
-   the whole grid); it stays visible here and is checked by the harness on every generated network *)
+(* transposition: the full statement (row/column Fubini exchange over the whole grid) - PROVED further down as
+   c11_transpose / c11_transpose_all (Tensor/TransposeAll.v); also checked by the harness on every generated network *)
 Definition c11_transpose_statement : Prop :=
   forall (K : cring) r c (tn : list (list (option (tensor K)))), netwf K r tn -> length tn = c ->
     value c (transpose_net K r tn) = value r tn.
@@ -117,6 +117,9 @@ Theorem c11_value_flat_matrix : forall (K : cring) (r : nat) (tn : list (list (o
 Proof. exact value_symval. Qed.
 Theorem c11_transpose : forall (K : cring) (r c : nat) (tn : list (list (option (tensor K)))), netwf K r tn -> length tn = c -> value c (transpose_net K r tn) = value r tn.
 Proof. exact transpose_value. Qed.
+Theorem c11_transpose_all : c11_transpose_statement.
+Proof. exact transpose_value. Qed.
+Print Assumptions c11_transpose_all.
 Print Assumptions c11_value_flat.
 Print Assumptions c11_value_flat_matrix.
 Print Assumptions c11_transpose.
